@@ -13,6 +13,14 @@
 #include <unistd.h>
 #include <dirent.h>
 
+// coverage builds (tools/coverage.sh, -DVERIF_COVERAGE): children leave through _exit, which skips gcov's atexit dump
+#ifdef VERIF_COVERAGE
+extern "C" void __gcov_dump(void);
+#define VERIF_COV_DUMP() __gcov_dump()
+#else
+#define VERIF_COV_DUMP() ((void)0)
+#endif
+
 struct Rng {  // splitmix64: every random choice of a run derives from VERIF_SEED
     uint64_t s;
     explicit Rng(uint64_t seed) {
@@ -180,6 +188,7 @@ static inline std::string in_child(std::function<void(FILE*)> f, unsigned second
         // silence library diagnostics
         f(o);
         fflush(o);
+        VERIF_COV_DUMP();
         _exit(0);
     }
     ::close(fd[1]);
